@@ -347,6 +347,94 @@ def run_real(c, outdir):
     return {"stream": stream, "events": events, "final": fin, "error": None}
 
 
+def run_resumed(c, outdir):
+    """A real run through FlowSampler that dies right after the checkpoint of the iterations in c['resume_after'] and is
+    resumed with FlowSampler(resume=True); the per-iteration clauses are evaluated by a CLASS-level wrapper of
+    consume_sample (instance wrappers would not survive the pickle), so there is no proposal stream and no model replay."""
+    import torch
+    from nessai.flowsampler import FlowSampler
+
+    torch.set_num_threads(1)
+    ids = {}
+    events = []
+
+    def pid(model, p):
+        k = tuple(float(p[n]) for n in model.names)
+        if k not in ids:
+            ids[k] = len(ids)
+        return ids[k]
+
+    real_consume = NestedSampler.consume_sample
+    real_ckpt = NestedSampler.checkpoint
+    state = {"stop": None, "session": 0}
+
+    class StopHere(BaseException):
+        pass
+
+    def consume_sample(ns):
+        model = ns.model
+        before = [pid(model, p) for p in ns.live_points]
+        real_consume(ns)
+        i = ns.insertion_indices[-1]
+        ll = ns.live_points["logL"]
+        after = [pid(model, p) for p in ns.live_points]
+        events.append({
+            "kind": "step", "pos": int(ns.iteration), "session": state["session"], "idx": int(i),
+            "removed": pid(model, ns.nested_samples[-1]), "new": pid(model, ns.live_points[i]),
+            "new_logL": float(ll[i]), "new_finP": bool(np.isfinite(ns.live_points[i]["logP"])),
+            "new_inb": bool(model.in_bounds(ns.live_points[i])),
+            "new_logL_ok": bool(np.isclose(float(model.log_likelihood(ns.live_points[i:i + 1])[0]), float(ll[i]),
+                                           rtol=1e-9, atol=1e-9)),
+            "live_inb": bool(np.all(model.in_bounds(ns.live_points))), "worst_logL": float(ns.nested_samples[-1]["logL"]),
+            "sorted": bool(np.all(ll[:-1] <= ll[1:])), "size": int(ns.live_points.size),
+            "others_kept": bool(after[:i] + after[i + 1:] == before[1:]), "worst_was_min": bool(before[0] == pid(model, ns.nested_samples[-1])),
+            "rank": int(np.sum(np.delete(ll, i) < ll[i])), "it_ok": bool(int(ns.live_points[i]["it"]) == ns.iteration)})
+
+    def checkpoint(ns, *a, **k):
+        r = real_ckpt(ns, *a, **k)
+        if state["stop"] is not None and ns.iteration >= state["stop"] and not ns.finalised and os.path.exists(ns.resume_file):
+            raise StopHere()
+        return r
+
+    NestedSampler.consume_sample = consume_sample
+    NestedSampler.checkpoint = checkpoint
+    resumed_at = []
+    try:
+        kw = dict(nlive=c["nlive"], output=outdir, plot=False, seed=c["seed"], signal_handling=False,
+                  checkpointing=True, checkpoint_on_iteration=True, checkpoint_interval=c.get("checkpoint_interval", 5),
+                  stopping=c.get("stopping", 0.5), max_iteration=c.get("max_iteration"))
+        if c["proposal"] == "rejection":
+            kw.update(maximum_uninformed=1e12, uninformed_acceptance_threshold=-1.0)
+        else:
+            kw.update(maximum_uninformed=c.get("maximum_uninformed", c["nlive"]),
+                      flow_config=dict(n_blocks=2, n_neurons=4), training_config=dict(max_epochs=c.get("max_epochs", 10), patience=5),
+                      poolsize=c.get("poolsize", c["nlive"]))
+            if c.get("reparameterisations"):
+                kw["reparameterisations"] = c["reparameterisations"]
+        first = True
+        for stop in list(c["resume_after"]) + [None]:
+            state["stop"] = stop
+            model = Gauss(c.get("dims", 2), c.get("variant"))
+            fs = FlowSampler(model, resume=not first, **kw)
+            if not first:
+                resumed_at.append(int(fs.ns.iteration))
+                state["session"] += 1
+            first = False
+            try:
+                fs.run(plot=False, save=False)
+            except StopHere:
+                continue
+        ns = fs.ns
+        fin = {"dead": [pid(ns.model, p) for p in ns.nested_samples], "dead_logL": [float(p["logL"]) for p in ns.nested_samples],
+               "idxs": [int(i) for i in ns.insertion_indices], "iteration": int(ns.iteration),
+               "logLs": [float(v) for v in ns.state.logLs], "nls": [int(v) for v in ns.state.nlive],
+               "finalised": bool(ns.finalised), "nlive": int(ns.nlive)}
+    finally:
+        NestedSampler.consume_sample = real_consume
+        NestedSampler.checkpoint = real_ckpt
+    return {"stream": [], "events": events, "final": fin, "error": None, "no_model": True, "resumed_at": resumed_at}
+
+
 def main():
     logging.disable(logging.CRITICAL)
     import warnings
@@ -361,7 +449,7 @@ def main():
                 outs.append(run_scripted(c, od))
             else:
                 try:
-                    outs.append(run_real(c, od))
+                    outs.append(run_resumed(c, od) if c["kind"] == "resumed" else run_real(c, od))
                 except Exception as e:  # noqa
                     import traceback
                     outs.append({"error": type(e).__name__ + ": " + str(e)[:300], "tb": traceback.format_exc()[-1500:]})
